@@ -21,51 +21,70 @@ func init() {
 var arithOps = []string{"add", "sub", "mul", "quo"}
 var unaryOps = []string{"abs", "neg", "round"}
 
-// arithCase evaluates one (op, ctx, x, y) event for C01 (value), C02 (flags)
-// and C07 (fit), selected by which.
+// arithCase evaluates one (op, ctx, x, y) event of the single-rounding
+// arithmetic operations for C01 (value), C02 (flags) or C07 (fit).
 func arithCase(t *mon.T, which string, op string, c dec.Ctx, x, y dec.D) {
 	e := ModelArith(op, c, x, y)
 	o := CallArith(op, br.Context(c, 0), x, y)
+	judge(t, which, op, c, x, y, e, o)
+}
+
+// judge compares one outcome with the model's expectation. which selects the
+// aspect: "value", "flags", "fit", or "all".
+func judge(t *mon.T, which string, op string, c dec.Ctx, x, y dec.D, e Expect, o Outcome) bool {
 	t.Eval()
 	if e.Skip != "" {
 		t.Skip(e.Skip)
 		if o.Flags&sysFlags != 0 && !e.SystemLimitOK {
 			t.Fail("system-limit-inside-limits", detail(op, c, x, y, o, "exponent-limit condition although all exponents are well inside the limits"))
 		}
-		return
+		return false
 	}
 	if o.Flags&sysFlags != 0 || (o.Err != nil && strings.Contains(o.Err.Error(), "exponent out of range")) {
 		t.Fail("system-limit-inside-limits", detail(op, c, x, y, o, "exponent-limit error although all exponents are well inside the limits"))
-		return
+		return false
 	}
 	if o.Err != nil {
 		t.Fail("unexpected-error", detail(op, c, x, y, o, "error with empty trap set"))
-		return
+		return false
 	}
 	t.Count(op + "/" + c.Mode + "/" + e.Class)
 	t.Count("class/" + e.Class)
+	t.Count("op/" + op)
 	if e.Nontrivial {
 		t.Nontrivial(fmt.Sprintf("%s|%s|%s|%s", op, c, x.FullString(), y.FullString()))
 	}
 	var why string
-	switch which {
-	case "value":
+	if which == "all" {
+		which = "value,flags,fit"
+	}
+	if strings.Contains(which, "value") {
 		why = CheckValue(e, o)
-	case "flags":
+	}
+	if why == "" && strings.Contains(which, "flags") {
 		why = CheckFlags(e, o)
-	case "fit":
+	}
+	if why == "" && strings.Contains(which, "fit") {
 		why = CheckFit(c, o)
 	}
 	if why != "" {
 		d := detail(op, c, x, y, o, why)
-		d["expected"] = e.Res.FullString()
+		if e.ResNaN {
+			d["expected"] = "NaN"
+		} else {
+			d["expected"] = e.Res.FullString()
+		}
 		d["class"] = e.Class
+		d["must"] = br.FlagNames(e.Must)
+		d["must_not"] = br.FlagNames(e.MustNot)
 		t.Fail(which+"-mismatch", d)
+		return false
 	}
 	if t.WantSample() {
 		t.Sample(map[string]interface{}{"op": op, "ctx": c.String(), "x": x.String(), "y": fmt.Sprint(y), "result": o.Res.String(),
 			"flags": br.FlagNames(o.Flags), "model_class": e.Class})
 	}
+	return true
 }
 
 // decimalString writes a finite decimal in a randomly chosen grammatical
